@@ -166,8 +166,60 @@ type VC struct {
 	pcParent       map[string][]string // pc -> path conditions it implies
 	pcMemo         map[string]map[string]bool
 	pcSplits       map[string][]T
+	concTypes      map[string]types.Type // concrete types seen boxed in interfaces / named in typeis()
+	ifaceTypes     map[string]types.Type // interface types asserted to (x.(I), implements(x, I))
 	freshRefs      []T
 	hookMatched    map[*Clause]bool
+}
+
+// noteConcrete / noteIface keep `gv_implements` (does dynamic type C satisfy interface I) in step with Go's type
+// system for every pair of a concrete type and an asserted interface that occurs in this verification condition.
+func (vc *VC) noteConcrete(t types.Type) {
+	if t == nil || types.IsInterface(t) {
+		return
+	}
+	k := vc.E.typeStr(t)
+	if vc.concTypes == nil {
+		vc.concTypes = map[string]types.Type{}
+	}
+	if _, ok := vc.concTypes[k]; ok {
+		return
+	}
+	vc.concTypes[k] = t
+	for _, it := range vc.ifaceTypes {
+		vc.implFact(t, it)
+	}
+}
+
+func (vc *VC) noteIface(t types.Type) {
+	if t == nil || !types.IsInterface(t) {
+		return
+	}
+	k := vc.E.typeStr(t)
+	if vc.ifaceTypes == nil {
+		vc.ifaceTypes = map[string]types.Type{}
+	}
+	if _, ok := vc.ifaceTypes[k]; ok {
+		return
+	}
+	vc.ifaceTypes[k] = t
+	for _, ct := range vc.concTypes {
+		vc.implFact(ct, t)
+	}
+}
+
+func (vc *VC) implFact(ct, it types.Type) {
+	iface, ok := it.Underlying().(*types.Interface)
+	if !ok {
+		return
+	}
+	vc.declareFun("gv_implements", []string{SortBV(64), SortBV(64)}, SortBool)
+	a := app("gv_implements", vc.E.TypeID(ct), vc.E.TypeID(it))
+	if types.Implements(ct, iface) {
+		vc.facts = append(vc.facts, "(assert "+a+")")
+	} else {
+		vc.facts = append(vc.facts, "(assert "+Not(a)+")")
+	}
 }
 
 // splitsFor finds a case split for pc: the disjuncts of the nearest merged path condition it implies.
